@@ -399,6 +399,12 @@ def run(ctx):
                 "per-attempt raise before the spawn: %s; given back on a failed spawn: %s; bulk raise in start(): %d — when a spawn fails the counter stays above the number of running threads and DatabaseInner::drop (run by the failing open) waits forever" % (before, bool(back) and adaptor, len(bulk))
             break
         ctx.ob("R-C17.4", ws, "counter-counts-exactly-the-threads-that-run", ok, detail)
+        gd = ctx.fn("<worker_pool::ThreadCounterGuard as std::ops::Drop>::drop", "R-C17.4")
+        if gd:
+            subs = [ctx.og(gd).of_operand(t["args"][1]) for _, t in gd.calls() if A.cname(t) == FSUB]
+            okg = len(subs) == 1 and subs[0].k == "const" and subs[0].a[:2] == ("int", 1)
+            ctx.ob("R-C17.4", gd, "a-leaving-worker-takes-back-exactly-one", okg, "the guard's drop is counter -= 1" if okg else
+                   "the worker's counter guard subtracts %s: the counter reaches zero before every worker has left (or wraps and never does)" % [A.tstr(x) for x in subs])
 
     # ---- R-C17.4 (cont.) what drop calls to break the cycles actually empties the containers that hold keyspace handles
     jmc = ctx.fn("journal::manager::JournalManager::clear", "R-C17.4")
